@@ -22,11 +22,39 @@ CLAUSES = ["LineClipInside", "LineClipUnion", "LineClipTags", "PolyClipInside", 
 MAXDEN = 1000
 MAXM = 500      # polygons_by_polyhedron: common denominator of all piece vertices of a case
 MAXM_LINE = 200 # lines_by_polygon: denominator of one end point (true values: <= 128)
+def _area_n(verts, nrm):
+    """n . sum of cross products (v_i - v_1) x (v_{i+1} - v_1): 2 |n| x signed area for exact integer vertices"""
+    v0 = verts[0]
+    tot = [0, 0, 0]
+    for a, b in zip(verts, verts[1:] + verts[:1]):
+        u = [a[k] - v0[k] for k in range(3)]
+        w = [b[k] - v0[k] for k in range(3)]
+        c = [u[1] * w[2] - u[2] * w[1], u[2] * w[0] - u[0] * w[2], u[0] * w[1] - u[1] * w[0]]
+        tot = [tot[k] + c[k] for k in range(3)]
+    return sum(tot[k] * nrm[k] for k in range(3))
+
+
+def _loses_area(r):
+    """the returned pieces (all inside, says the sibling clause) cover LESS than the polygon: part of the intersection is lost"""
+    poly = r["in"]["poly"]
+    v0 = poly[0]
+    nrm = [0, 0, 0]
+    for a, b in zip(poly, poly[1:] + poly[:1]):
+        u = [a[k] - v0[k] for k in range(3)]
+        w = [b[k] - v0[k] for k in range(3)]
+        c = [u[1] * w[2] - u[2] * w[1], u[2] * w[0] - u[0] * w[2], u[0] * w[1] - u[1] * w[0]]
+        nrm = [nrm[k] + c[k] for k in range(3)]
+    m = r["out"]["m"]
+    got = sum(abs(_area_n(pc["verts"], nrm)) for pc in r["out"]["pieces"])
+    return got < m * m * abs(_area_n(poly, nrm))
+
+
 MATCHERS = {
-    # degenerate placement (an edge of the polyhedron lies in the plane of the polygon): part of the intersection is lost
-    # although every returned piece is inside - only the area clause of that class fails, the function does not raise
+    # degenerate placement (an edge of the polyhedron lies in the plane of the polygon - the class is the clause, decided
+    # by TLC): the function returns normally, every piece is inside, but part of the intersection is lost (area deficit).
+    # Pieces outside (clause PolyClipInsideEdgeInPlane), surplus area, exceptions and all non-degenerate placements are NOT matched.
     "polyclip_edge_in_plane_loses_area": lambda r: r["clause"] == "PolyClipAreaEdgeInPlane" and r["fn"] == "polygons_by_polyhedron"
-    and r["ok"] and r["out"]["x"],
+    and r["ok"] is True and r["out"]["x"] is True and _loses_area(r),
 }
 
 
